@@ -5,6 +5,6 @@ import "verif/mc/checks/gen"
 
 func main() {
 	gen.Main("C17", "exploration",
-		"every proto2 corpus type with required fields or with message-typed fields whose type has required fields x runtimes: every subset of unset required fields (exhaustive for <= 6 required fields: ReqMix 64 subsets, ReqChild; for the 17-field Required message: none/all/each single/each all-but-one/every subset of the first six), each with and without an additional optional field; nesting positions singular field, list element, map value, oneof member with a deficient (non-empty and completely empty) and a complete nested message; lists and maps of 2-3 elements of which only SOME are deficient, in every order (bad-good, good-bad, good-bad-good, bad-good-good, bad-bad-good); the empty message / empty input. Oracle = reference runtime: Marshal/MarshalTo/csproto.Marshal must return an error iff proto.CheckInitialized(tree) fails; generated Unmarshal of the reference's partial encoding must return an error iff the reference's proto.Unmarshal reports a missing required field. distinct_nontrivial = evaluations where the reference verdict was 'not initialised' and the generated code agreed.",
+		"every proto2 corpus type with required fields or with message-typed fields whose type has required fields x runtimes: every subset of unset required fields (exhaustive for <= 6 required fields: ReqMix 64 subsets, ReqChild; for the 17-field Required message: none/all/each single/each all-but-one/every subset of the first six), each with and without an additional optional field; nesting positions singular field, list element, map value, oneof member with a deficient (non-empty and completely empty) and a complete nested message; lists and maps of 2-3 elements of which only SOME are deficient, in every order (bad-good, good-bad, good-bad-good, bad-good-good, bad-bad-good); the empty message / empty input. Oracle = reference runtime: Marshal/MarshalTo/csproto.Marshal must return an error iff proto.CheckInitialized(tree) fails; generated Unmarshal of the reference's partial encoding must return an error iff the reference's proto.Unmarshal reports a missing required field. distinct_nontrivial = evaluations where the reference verdict was 'not initialised' and the generated code agreed. ROUND 7-9 ADDITIONS: required fields present with the zero / empty value of their kind; required enum fields holding undefined or negative numbers; runtime-only proto2 children with required fields inside a generated parent (p2desc); deficient messages below a level that has no required field of its own (three-level chains).",
 		"the reference verdict is recursive (nested messages reached through set fields, list elements, map values, oneof members)")
 }
